@@ -1,6 +1,7 @@
 // Package simdirectio replaces github.com/ncw/directio in the instrumented
 // copy. DECLARED STUB: the O_DIRECT flag is dropped (tmpfs rejects it); files
-// are opened through the simulated disk. Block alignment of buffers is kept.
+// are opened through the simulated disk, which enforces O_DIRECT's alignment
+// rules on writes (buffer address, length and file offset multiples of 512).
 package simdirectio
 
 import (
@@ -17,5 +18,9 @@ const (
 func AlignedBlock(n int) []byte { return directio.AlignedBlock(n) }
 
 func OpenFile(name string, flag int, perm simos.FileMode) (*simos.File, error) {
-	return simos.OpenFile(name, flag, perm)
+	f, err := simos.OpenFile(name, flag, perm)
+	if err == nil {
+		f.SetDirect()
+	}
+	return f, err
 }
